@@ -36,11 +36,12 @@ var c09Ops = []string{
 	"ReplaceGlobals", "L().Info", "S().Infow",
 	"Observer.All", "Observer.Len", "Observer.TakeAll", "Observer.Filter",
 	"slog.Info", "slog.With+WithGroup", "slog.Handler.WithAttrs+Handle", "slog.PendingGroups.WithGroup", "slog.PendingGroups.WithAttrs",
+	"slog.PendingGroups.Handle", "slog.PendingGroups.Handle", "Observer.ReadMessages", "Observer.ReadMessages",
 	"BWS.Write", "BWS.Sync", "BWS.Stop", "Locked.Write", "Locked.Sync",
 	"LazyChild.Info", "LazyChild.With", "yield",
 	"BWSoverLock.Write", "BWSoverLock.Sync", "BWSoverUnsafe.Write(small)", "BWSoverUnsafe.Write(oversized)", "BWSoverUnsafe.Write(oversized)", "BWSoverUnsafe.Sync", "ErrnoLocked.Write+Sync", "ErrnoLocked.Write+Sync", "ErrnoLogger.Error+Sync",
 	"ReflectCtx.Info(reflect)", "ReflectCtx.Info(reflect)", "ReflectCtx.With(reflect)", "Logger.Info(unencodable)", "Logger.Error(errors)", "Logger.Info(nested)",
-	"Logger.Info(unencodable-last)", "Logger.Info(unencodable-last)", "DeepStack.Error", "DeepStack.Error", "Logger.Info(big)", "StdLog.Print", "grpc.Info", "grpc.V", "zapio.Write", "Logger.Check(disabled)", "Logger.Info(stringers)",
+	"Logger.Info(unencodable-last)", "Logger.Info(unencodable-last)", "DeepStack.Error", "DeepStack.Error", "Logger.Info(big)", "StdLog.Print", "StdLog.Print", "StdLog.Print", "grpc.Info", "grpc.V", "zapio.Write", "Logger.Check(disabled)", "Logger.Info(stringers)",
 }
 
 type c09Program struct {
@@ -279,7 +280,22 @@ func c09Run(t interface{ Fatalf(string, ...any) }, p *c09Program) (sharedWriters
 						r := slog.NewRecord(time.Unix(1, 0), slog.LevelInfo, "i", 0)
 						r.AddAttrs(slog.Int("k", g))
 						_ = h.Handle(context.Background(), r)
-					case "slog.PendingGroups.WithAttrs":
+					case "slog.PendingGroups.Handle":
+					// several goroutines through the SAME handler whose groups are still pending
+					r := slog.NewRecord(time.Unix(1, 0), slog.LevelInfo, "i", 0)
+					r.AddAttrs(slog.Int("k", g), slog.Any("v", c18Valuer{slog.StringValue("resolved")}))
+					_ = pending.Handle(context.Background(), r)
+				case "Observer.ReadMessages":
+					// a consumer of the observed entries reads their bytes (messages, names, string fields)
+					n := 0
+					for _, e := range logs.All() {
+						n += len(append([]byte(nil), e.Message...)) + len(append([]byte(nil), e.LoggerName...))
+						for _, f := range e.Context {
+							n += len(append([]byte(nil), f.String...))
+						}
+					}
+					_ = n
+				case "slog.PendingGroups.WithAttrs":
 						_ = pending.WithAttrs([]slog.Attr{slog.Int("a", g)}).Handle(context.Background(), slog.NewRecord(time.Unix(1, 0), slog.LevelWarn, "i", 0))
 					case "BWSoverUnsafe.Write(small)":
 					_, _ = bwsUnsafe.Write([]byte("small\n"))
